@@ -64,6 +64,13 @@ def make_case(seed, shard, i):
     from vfy import cps
 
     methods = cps.METHODS + ["next_paths:collect", "next_by_line:collect"]
+    x = r.random()
+    if x < 0.06:
+        # a parked group: every member is switched off (the run still has to be archived as a complete run)
+        for m_ in members:
+            m_["extra"] += "run-mode: no-run "
+    elif x < 0.14:
+        r.choice(members)["extra"] += "run-mode: no-run "
     cps_policy = None
     if r.random() < 0.1:
         # a member that fails outside match evaluation (unknown function) in a run whose CsvPaths-level policy does not
